@@ -821,3 +821,36 @@ func returnedValue(r *ssa.Return, idx int) ssa.Value {
 	}
 	return v
 }
+
+// splitRel splits a comparison fact "L op R" at the operator outside any parentheses.
+func splitRel(fact string) (l, op, r string, ok bool) {
+	depth := 0
+	for i := 0; i < len(fact); i++ {
+		switch fact[i] {
+		case '(', '[', '{':
+			depth++
+		case ')', ']', '}':
+			depth--
+		case ' ':
+			if depth != 0 {
+				continue
+			}
+			for _, o := range []string{"<=", ">=", "==", "!=", "<", ">"} {
+				if strings.HasPrefix(fact[i+1:], o+" ") {
+					return fact[:i], o, fact[i+len(o)+2:], true
+				}
+			}
+		}
+	}
+	return "", "", "", false
+}
+
+// relIs: the fact states "a op b" for some a accepted by isA and b accepted by isB, in either operand order.
+func relIs(fact string, isA func(string) bool, op string, isB func(string) bool) bool {
+	l, o, r, ok := splitRel(fact)
+	if !ok {
+		return false
+	}
+	sw := map[string]string{"<": ">", ">": "<", "<=": ">=", ">=": "<=", "==": "==", "!=": "!="}
+	return o == op && isA(l) && isB(r) || o == sw[op] && isA(r) && isB(l)
+}
